@@ -64,6 +64,7 @@ func buildSQLGrammar() *sqlGrammar {
 	addPay("union", "~union~select~1", "~union~all~select~1,2,3", "~union~select~null,null", "~union~select~user()", "~union~select~@@version", "~union~select~*~from~users", "~union~select~password~from~users", "~union~distinct~select~1", "~union~(select~1)", "~union~select~'a','b'", "~union~select~1~from~dual", "~union~select~concat(user,0x3a,pass)~from~t", "~union~select~1~into~outfile~'/tmp/x'", "~union~select~load_file('/etc/passwd')", "~union~select~char(65)", "~union~select~count(*)~from~t", "~union~all~(select~null)", "~union~select~1,2~from~t~where~1=1", "~union~select~1~limit~1", "~union~select~1~order~by~1")
 	addPay("stacked", ";~drop~table~users", ";~select~1", ";~insert~into~t~values(1)", ";~update~t~set~a=1", ";~delete~from~t", ";~exec~xp_cmdshell('dir')", ";~shutdown", ";~declare~@a~int", ";~waitfor~delay~'0:0:5'", ";~if~1=1~select~1", ";~select~pg_sleep(5)", ";~create~table~t(a~int)", ";~alter~table~t~add~a~int", ";~truncate~table~t", ";~exec~('x')", ";~select~*~from~t", ";~begin~declare~@a~int~end", ";~set~@a=1", ";~call~p()", ";~grant~all~on~*.*~to~x")
 	addPay("function", "~and~sleep(5)", "~or~sleep(5)", "~or~benchmark(1000000,md5(1))", "~and~extractvalue(1,concat(0x7e,version()))", "~or~pg_sleep(5)", "~and~updatexml(1,concat(0x7e,user()),1)", "~and~(select~1~from~(select~sleep(5))a)", "~or~ascii(substring(user(),1,1))>64", "~and~length(database())>1", "~or~char(65)=char(65)", "~and~load_file('/etc/passwd')", "~procedure~analyse()", "~into~outfile~'/tmp/x'", "~or~exists(select~1)", "~and~1=convert(int,@@version)", "~or~1=cast(1~as~int)", "~and~if(1=1,sleep(5),0)", "~or~(select~count(*)~from~t)>0", "~and~substr(version(),1,1)=5", "~and~ord(mid(user(),1,1))>64", "~or~row(1,1)>(select~1)", "~and~exp(~(select~1))", "~and~md5(1)=md5(1)", "~or~utl_inaddr.get_host_name('x')=1", "~and~dbms_pipe.receive_message('a',5)=1", "~and~case~when~1=1~then~1~else~0~end=1", "~or~coalesce(null,1)=1", "~and~1=(select~1)", "~and~hex(1)=31", "~or~isnull(null)")
+	addPay("combined", "~or~1=1;~waitfor~delay~'0:0:5'", "~or~1=1~order~by~1", "~or~1=1~group~by~1", "~and~1=1~union~select~1", "~or~1=1;~drop~table~users", "~or~1=1~limit~1", "~or~1=1~and~sleep(5)", "~union~select~1;~drop~table~t", "~union~select~1~order~by~1", "~union~select~1~group~by~1", "~or~1=1~procedure~analyse()", "~or~1=1~into~outfile~'x'", "~and~1=1;~select~pg_sleep(5)", "~or~1=1~having~1=1", "~or~'a'='a'~order~by~1", "~or~1=1;~exec~xp_cmdshell('dir')", ";~select~1~order~by~1", ";~select~1~group~by~1", "~union~all~select~1,2~from~t~order~by~1", "~or~1=1~for~update", "~or~1=1~and~2=2~order~by~1", "~or~1=1;~if~1=1~waitfor~delay~'0:0:5'")
 	addPay("comment_truncation", "--", "--~", "#", "/*", "--~foo", ";--", "/*foo*/", ";#", "--+", "~or~1--")
 	g.Tails = []string{"", "--", sp("--~"), "#", "/*", ";", sp(";--~"), sp("~--~-"), sp("~or~'1'='1"), sp("~and~'a'='a"), sp("~or~\"1\"=\"1"), "'", "\"", ")", sp("--~x"), "#x", ";--", "/*x"}
 	g.Seps = []string{" ", "\t", "\n", "\r", "\v", "\f", "\xa0", "\x00", "/**/", "/*x*/", "  ", " \t\n", "/**/ "}
@@ -390,7 +391,7 @@ func TestC03(t *testing.T) {
 		_, pi, _ := g.triple(i)
 		return ev.Case{Kind: g.Fam[pi], N: i, In: string(b)}
 	})
-	c.rec.Require("family_tautology", "family_union", "family_stacked", "family_function", "family_comment_truncation", "at_least_200_fingerprints")
+	c.rec.Require("family_tautology", "family_union", "family_stacked", "family_function", "family_comment_truncation", "family_combined", "at_least_200_fingerprints")
 	for i := range passModes {
 		c.rec.Require(fmt.Sprintf("first_firing_pass_%d_%s", i, modeName(passModes[i])))
 	}
